@@ -4,7 +4,7 @@
    are not crystallographic for QMAX >= 2 (e.g. (2,1,0,0): rotation about x with cos = 3/5).  One TLC state per rotation:
    exact s, p, d matrices, orthogonality, parity, and the homomorphism law against a fixed set of partner rotations. *)
 EXTENDS OrbRep
-CONSTANTS QMAX, NORMS, Variant
+CONSTANTS QMAX, NORMS, NPART, Variant
 VARIABLES q, sgn, R, dp, dd
 vars == <<q, sgn, R, dp, dd>>
 
@@ -27,7 +27,7 @@ Spec == Init /\ [][Next]_vars
 InO3          == IsOrthogonal(R) /\ Det3(R) = Num(sgn)
 RepOrthogonal == IsOrthogonal(dp) /\ IsOrthogonal(dd)
 RepParity     == DP(NegM(R), Variant) = NegM(dp) /\ DD(NegM(R), Variant) = dd
-RepHom        == \A n \in 1..Len(Partners) :
+RepHom        == \A n \in 1..NPART :
                     LET P == Partners[n] IN
                     /\ MatMul(dp, DP(P, Variant)) = DP(MatMul(R, P), Variant) /\ MatMul(DP(P, Variant), dp) = DP(MatMul(P, R), Variant)
                     /\ MatMul(dd, DD(P, Variant)) = DD(MatMul(R, P), Variant) /\ MatMul(DD(P, Variant), dd) = DD(MatMul(P, R), Variant)
